@@ -99,6 +99,8 @@ structure World where
   failAt : List Nat := []
   /-- names of user functions whose result is not determined by their arguments -/
   impureFns : List String := []
+  /-- user functions interpreted as constants (`def f(*a): return None`): symbolic terms are never falsy, these are -/
+  constFns : List (String × Val) := []
   /-- the call log, newest first -/
   log : List CallRec := []
   stores : List MemStore := []
@@ -119,6 +121,7 @@ def World.call (w : World) (n : Nat) (f : String) (pos : List Val) (kwn : List S
     Except Err Val × World :=
   let w' := { w with serial := w.serial + 1, log := ⟨f, pos, kwn, kwv⟩ :: w.log }
   if w.failAt.contains w.serial then (.error (.user f), w')
+  else if let some (_, v) := w.constFns.find? (·.1 == f) then (.ok v, w')
   else if w.impureFns.contains f then (.ok (.imp f w.callNo n pos kwn kwv), w')
   else (.ok (.app f pos kwn kwv), w')
 
